@@ -87,6 +87,12 @@ impl Rng {
         v
     }
 
+    /// Random bytes of a random length in `lo..=hi`.
+    pub fn bytes_between(&mut self, lo: usize, hi: usize) -> Vec<u8> {
+        let n = self.range(lo as i64, hi as i64) as usize;
+        self.bytes(n)
+    }
+
     pub fn fill(&mut self, out: &mut [u8]) {
         let b = self.bytes(out.len());
         out.copy_from_slice(&b);
